@@ -186,6 +186,9 @@ func (Segment).Recover
     // the index kept for the segment is the index derived from the valid prefix
     assert[recover_derived] derived(restoreIndex, old(fsContent)[s.Log], params) at call (*Reader).Close 1
     // only a damaged log is replaced (by the temp file holding the copied records); an undamaged one is not touched
+    // the copy of the valid prefix is written in the version of the log being recovered (its records keep their
+    // positions, so the restored index matches) and under the segment's own base offset
+    assert[recover_version] arg0 == s.Log + ".recover" && arg1 == s.Offset && arg2 == log.v at call message.OpenWriter 1
     assert[recover_replace] corrupted && arg0 == restore.Path && arg1 == s.Log && restore.Path == s.Log + ".recover" at call os.Rename 1
     ensures[recover_noop]   tailClean(old(fsContent)[s.Log]) && s.Log + ".recover" != s.Log && s.Index != s.Log ==> fsContent[s.Log] == old(fsContent)[s.Log] && fsExists[s.Log] == old(fsExists)[s.Log]
     // a stored index that differs from the derived one is replaced by the derived one
